@@ -1372,7 +1372,7 @@ C("state_machine", arg_types={**SELF, "packet": T.Opaque}, setup=_sm_setup, prop
   ensures=inv_clauses(("C10", "C11")) + [
       Clause("C10.returns_states", lambda o, n, r: r.cls is S.FsmResult and r.states.oid == o.self.states.oid, ("C10",)),
   ],
-  raises=[RaiseClause(f"C10.rejected_pdu_changes_nothing.{e.__name__}", e, when=_sm_rejected, props=("C10", "C20"), modifies=[],
+  raises=[RaiseClause(f"C10.rejected_pdu_changes_nothing.{e.__name__}", e, when=_sm_rejected, props=("C10",), modifies=[],
                       post=lambda o, n: len([e for e in n.trace if e["kind"] != "opaque_call"]) == 0) for e in ADMISSION_EXC] + [
       RaiseClause("C10.unretrieved_truthful", X.UnretrievedPdusToBeSent, iff=True,
                   when=lambda o: And_(ne(o.self.states.state, IDLE), qlen(o.self) > 0), props=("C10",), modifies=[]),
